@@ -311,6 +311,27 @@ def run_fs(desc):
                                        'relation': 'the case-insensitive result contains every case-sensitive variant result'}, bucket=('fs-union', base))
                 if len(res[first][0]) > len(res[first][1]):
                     out.nontrivial(('fs', base, extra))
+        # the platform flags have no say in a crawl of this host's file system: FORCEWIN|FORCEUNIX cancel out, a lone FORCEWIN is
+        # dropped - for inclusion and exclusion patterns alike
+        for base in ('*', '*/*', 'data/*', '**'):
+            for excl in ('DATA*', 'Notes', 'TOP/*', 'D*/X*', 'nOTES'):
+                for how in ('exclude=', 'inline'):
+                    for extra in (G.GLOBSTAR, G.GLOBSTAR | G.IGNORECASE, G.GLOBSTAR | G.CASE):
+                        def run(fl_):
+                            if how == 'inline':
+                                return set(G.glob([base, '!' + excl], flags=fl_ | G.NEGATE, root_dir=root))
+                            return set(G.glob(base, flags=fl_, exclude=excl, root_dir=root))
+                        r0 = run(extra)
+                        out.evaluations += 3
+                        for label, fl_ in (('FORCEWIN|FORCEUNIX', extra | G.FORCEWIN | G.FORCEUNIX), ('FORCEWIN', extra | G.FORCEWIN), ('FORCEUNIX', extra | G.FORCEUNIX)):
+                            r1 = run(fl_)
+                            if r1 != r0:
+                                d = sorted(r1 ^ r0)[0]
+                                out.violation({'mode': 'fs', 'pattern': base, 'exclusion': excl, 'delivery': how, 'flags': [label], 'extra_flags': extra, 'name': d,
+                                               'relation': 'platform flags do not change a crawl of this host (inclusions and exclusions)'},
+                                              bucket=('fs-platform', label, how))
+                                break
+                out.nontrivial(('fs-platform', base, excl))
     out.sample({'stream': 'fs', 'patterns': bases, 'variants_each': 6})
     return out
 
